@@ -50,7 +50,13 @@ var families = []struct{ re, name string }{
 	{`no new variables on left side`, "no-new-variables"},
 	{`overflows|truncated|cannot convert .* constant|constant .* overflow|division by zero|invalid constant|constant of type|negative shift count|invalid shift count|shift count|is not constant`, "constant-expression"},
 	{`use of untyped nil`, "untyped-nil"},
-	{`already declared|redeclared|cannot declare (init|main)|duplicate (case|field|method|key|index)|other declaration|multiple defaults`, "redeclaration"},
+	{`duplicate case .* in type switch`, "duplicate-type-case"},
+	{`duplicate case`, "duplicate-case"},
+	{`multiple defaults`, "multiple-defaults"},
+	{`duplicate (key|index)`, "duplicate-literal-key"},
+	{`duplicate (field|method)`, "duplicate-member"},
+	{`already declared|redeclared|cannot declare (init|main)|other declaration`, "redeclaration"},
+	{`field and method with the same name`, "field-method-collision"},
 	{`invalid recursive type|invalid cycle|initialization cycle`, "cycle"},
 	{`cannot use _ as value|cannot refer to blank`, "blank-as-value"},
 	{`assignment mismatch|wrong argument count|not enough (arguments|return values)|too many (arguments|return values)`, "count-mismatch"},
@@ -70,11 +76,63 @@ func init() {
 	}
 }
 
-// classOf maps a Go type-checker / parser / compiler message about the output to a class.
+// sub-classes: the part of a diagnostic that says which Go front-end rule was applied, without the
+// operands. A listed finding covers one (family, rule) pair, so that a regression in another rule of
+// the same family (say, assignability in a return statement instead of in a map index) is reported.
+var subRes = []struct {
+	re   *regexp.Regexp
+	name string
+}{
+	{regexp.MustCompile(`cannot use .* in (argument|assignment|return statement|map index|struct literal|array or slice literal|slice literal|map literal|variable declaration|send|range clause|field value|index|switch case|call to \S+)`), "cannot-use-in-$1"},
+	{regexp.MustCompile(`cannot use .* as .* value`), "cannot-use"},
+	{regexp.MustCompile(`mismatched types`), "mismatched-types"},
+	{regexp.MustCompile(`operator (\S+) not defined`), "operator-not-defined"},
+	{regexp.MustCompile(`invalid operation: (cannot call|cannot index|cannot slice|cannot range|shift|division|invalid shift|shifted operand|cannot compare|cannot take|cannot indirect|cannot receive|cannot send)`), "$1"},
+	{regexp.MustCompile(`(too many|not enough|wrong argument count|missing) (arguments|argument|return values) in (conversion|call|return)`), "$1-$2-in-$3"},
+	{regexp.MustCompile(`(too many|not enough) (arguments|return values)`), "$1-$2"},
+	{regexp.MustCompile(`assignment mismatch: .* but (\S+)`), "assignment-mismatch"},
+	{regexp.MustCompile(`cannot convert .* constant`), "constant-conversion"},
+	{regexp.MustCompile(`cannot convert .*\(([a-z]+ ?[a-z]*) (of type|constant)`), "convert-$1"},
+	{regexp.MustCompile(`(overflows|truncated|division by zero|invalid constant|negative shift count|invalid shift count|is not constant|constant .* overflow)`), "$1"},
+	{regexp.MustCompile(`(break|continue|fallthrough|goto)`), "$1"},
+	{regexp.MustCompile(`label`), "label"},
+	{regexp.MustCompile(`(method|field|func|var|const|type)? ?\S+ (already declared|redeclared)`), "$2"},
+	{regexp.MustCompile(`cannot declare (init|main)`), "declare-$1"},
+	{regexp.MustCompile(`is not used|not used`), "$0"},
+	{regexp.MustCompile(`must be integer|invalid argument: index`), "index-must-be-integer"},
+	{regexp.MustCompile(`invalid argument: (\S+ )?.*for (built-in )?(\w+)`), "builtin-$3"},
+	{regexp.MustCompile(`(does not implement|impossible type|cannot infer|not a type|is not a type|cannot assign|cannot take address|invalid use of|invalid receiver|cannot call)`), "$1"},
+}
+
+var wordRe = regexp.MustCompile(`[a-z]+`)
+
+func subOf(msg string) string {
+	if i := strings.Index(msg, ": "); i >= 0 && strings.Count(msg[:i], ":") >= 2 { // file:line:col:
+		msg = msg[i+2:]
+	}
+	for _, s := range subRes {
+		if m := s.re.FindStringSubmatchIndex(msg); m != nil {
+			out := string(s.re.ExpandString(nil, strings.ReplaceAll(s.name, "$0", "${0}"), msg, m))
+			out = strings.Join(strings.Fields(out), "-")
+			if len(out) > 40 {
+				out = out[:40]
+			}
+			return out
+		}
+	}
+	return ""
+}
+
+// classOf maps a Go type-checker / parser / compiler message about the output to a class:
+// go-rejects:<family>[/<rule>].
 func classOf(msg string) string {
 	for i, re := range familyRes {
 		if re.MatchString(msg) {
-			return "go-rejects:" + families[i].name
+			c := "go-rejects:" + families[i].name
+			if sub := subOf(msg); sub != "" {
+				c += "/" + sub
+			}
+			return c
 		}
 	}
 	m := normRe.ReplaceAllString(msg, "#")
@@ -217,6 +275,9 @@ func TestPackages(t *testing.T) {
 			r.Sample(map[string]any{"ops": d.ops, "base": d.kind})
 		}
 		if os.Getenv("VK_DISCOVER") != "" { // development aid: list all failing classes of a run
+			if v != nil {
+				fmt.Printf("DISCOVER %s | %s | %v\n", v.Class, normRe.ReplaceAllString(strings.TrimPrefix(v.Detail, "cl reported success but go/types rejects the output: "), "#"), d.ops)
+			}
 			if v = r.Judge(v); v != nil {
 				r.Class("would-fail:" + v.Class)
 				r.Fail("pkg", d.c, v)
